@@ -77,7 +77,15 @@ func runSolver(ctx context.Context, name, file string, timeoutMS int64) solverRu
 	t0 := time.Now()
 	_ = cmd.Run()
 	r := solverRun{name: name, out: out.String(), ms: time.Since(t0).Milliseconds()}
-	first := strings.TrimSpace(strings.SplitN(r.out, "\n", 2)[0])
+	first := ""
+	for _, l := range strings.Split(r.out, "\n") {
+		l = strings.TrimSpace(l)
+		if l == "" || strings.HasPrefix(l, "WARNING") || strings.HasPrefix(l, "(warning") {
+			continue
+		}
+		first = l
+		break
+	}
 	switch first {
 	case "unsat", "sat", "unknown":
 		r.status = first
